@@ -21,7 +21,8 @@ Definition rNone : ref := -1.
 Definition rGuard : ref := -2.
 Definition rSub : ref := -4.
 
-Inductive directive := DRestart | DStop | DResume | DEscalate.
+Inductive directive := DRestart | DStop | DResume | DEscalate
+                   | DRestartAll.          (* the supervisor restarts all of its children (all-for-one) *)
 Inductive trigk := KL | KRD | KRG | KT | KTS | KTO | KP.
 Inductive trig := TL | TRD | TRG | TT | TTS | TTO (who : ref) | TP (n : Z).
 Inductive action :=
@@ -356,6 +357,9 @@ Fixpoint terminate_all (s : kstate) (self : ref) (cs : list ref) (g : bool) : ks
   | c :: rest => let '(s1, o1) := terminate s self c g in let '(s2, o2) := terminate_all s1 self rest g in (s2, o1 ++ o2)
   end.
 
+Fixpoint restart_all (s : kstate) (self : ref) (cs : list ref) : kstate :=
+  match cs with [] => s | c :: rest => restart_all (deliver_sys s c self SRestart) self rest end.
+
 Fixpoint notify_all (s : kstate) (self : ref) (ws : list ref) : kstate :=
   match ws with [] => s | w :: rest => notify_all (deliver_sys s w self (STerminatedOf self)) self rest end.
 
@@ -415,6 +419,7 @@ Definition apply_directive (s : kstate) (u : nat) (r : arec) (d : directive) (cu
           let '(s2, o2, p) := try_terminated s1 u cur_snd in (s2, o ++ o1 ++ o2, p)
       | DResume => ok (deliver_sys s (ar_vref r) self SResume) o
       | DEscalate => let '(s1, o1, p) := escalate s u r in (s1, o ++ o1, p)
+      | DRestartAll => ok (restart_all s self (a_children a)) o
       end
   end.
 
@@ -476,7 +481,8 @@ Definition process_sys (s : kstate) (u : nat) (e : env smsg) : R :=
       | SRestart =>
           match a_st a with
           | Alive =>
-              let s1 := upd_actor s u (w_st Restarting) in
+              let s0 := upd_actor s u (w_st Restarting) in
+              let s1 := deliver_sys s0 (a_tok a) (a_tok a) SSuspend in     (* no user message until the new instance is in *)
               handle s1 u TRG 0%nat snd >>= (fun s2 =>
                 match get s2 u with
                 | None => ok s2 []
@@ -488,7 +494,8 @@ Definition process_sys (s : kstate) (u : nat) (e : env smsg) : R :=
           end
       | SAccident r => on_accident s u r snd
       | SWatch =>
-          if st_ge_terminating (a_st a) then ok (deliver_sys s snd (a_tok a) (STerminatedOf (a_tok a))) []
+          if snd =? a_parent a then ok s []      (* the parent is notified anyway, exactly once *)
+          else if st_ge_terminating (a_st a) then ok (deliver_sys s snd (a_tok a) (STerminatedOf (a_tok a))) []
           else ok (upd_actor s u (fun b => w_watchers (insert_sorted snd (a_watchers b)) b)) []
       | SUnwatch => ok (upd_actor s u (fun b => w_watchers (remove_ref snd (a_watchers b)) b)) []
       | SSuspend | SResume => ok s []
